@@ -89,4 +89,12 @@ def aput (a : AStore) (e : Entry) (mask : Nat) : AStore :=
   | some (_, r) => e :: r
   | none => e :: a
 
+/-- store, repaired source shape (fixes/C10-put-replaces-all-versions.diff): under a single-version key
+    (`mask = 0`) ALL versions of the page number in that network are replaced -/
+def aputR (a : AStore) (e : Entry) (mask : Nat) : AStore :=
+  if mask = 0 then e :: a.filter (fun o => !(decide (o.pgno = e.pgno ∧ o.net = e.net))) else aput a e mask
+
+/-- key of a version inside its page number: the key classes of `putKey` keep these distinct (repaired shape) -/
+def lowKey (pgno subno : Nat) : Nat := if isBcd pgno then subno &&& 0xFF else subno &&& 0xF
+
 end Zvbi.Cache
